@@ -357,6 +357,40 @@ func c09Families() []c09Family {
 		{"wrap-not", func(n int) (string, any) { return rep("!", n) + "a", map[string]any{"a": num(1)} }},
 		{"wrap-neg", func(n int) (string, any) { return rep("-", n) + " a", map[string]any{"a": num(1)} }},
 		{"wrap-abs", func(n int) (string, any) { return rep("abs(", n) + "a" + rep(")", n), map[string]any{"a": num(-1)} }},
+		// a call with its optional arguments present, nested in its own first argument
+		{"wrap-trim2", func(n int) (string, any) {
+			return rep("trim(", n/4+1) + "a" + rep(", 'x')", n/4+1), map[string]any{"a": "xax"}
+		}},
+		{"wrap-trim_left2", func(n int) (string, any) {
+			return rep("trim_left(", n/4+1) + "a" + rep(", 'x')", n/4+1), map[string]any{"a": "xax"}
+		}},
+		{"wrap-pad3", func(n int) (string, any) {
+			return rep("pad_left(", n/4+1) + "a" + rep(", `3`, '-')", n/4+1), map[string]any{"a": "x"}
+		}},
+		{"wrap-split3", func(n int) (string, any) {
+			return rep("join(',', split(", n/8+1) + "a" + rep(", ',', `5`))", n/8+1), map[string]any{"a": "x,y"}
+		}},
+		{"wrap-replace4", func(n int) (string, any) {
+			return rep("replace(", n/4+1) + "a" + rep(", 'x', 'y', `1`)", n/4+1), map[string]any{"a": "xx"}
+		}},
+		{"wrap-find4", func(n int) (string, any) {
+			return rep("find_first('abc', 'b', ", n/8+1) + "`0`" + rep(", `3`)", n/8+1), map[string]any{}
+		}},
+		{"wrap-not_null", func(n int) (string, any) {
+			return rep("not_null(", n/4+1) + "a" + rep(", b)", n/4+1), map[string]any{"b": num(1)}
+		}},
+		{"wrap-merge", func(n int) (string, any) {
+			return rep("merge(", n/4+1) + "a" + rep(", a)", n/4+1), map[string]any{"a": map[string]any{"k": num(1)}}
+		}},
+		{"wrap-sort_by", func(n int) (string, any) {
+			return rep("sort_by(", n/4+1) + "a" + rep(", &k)", n/4+1), map[string]any{"a": []any{map[string]any{"k": num(2)}, map[string]any{"k": num(1)}}}
+		}},
+		{"wrap-map", func(n int) (string, any) {
+			return rep("map(&@, ", n/4+1) + "a" + rep(")", n/4+1), map[string]any{"a": []any{num(1), num(2)}}
+		}},
+		{"wrap-second-argument", func(n int) (string, any) {
+			return rep("contains(a, ", n/4+1) + "b" + rep(")", n/4+1), map[string]any{"a": []any{true, false}, "b": false}
+		}},
 		{"wrap-to_array", func(n int) (string, any) { return rep("to_array(", n) + "a" + rep(")", n), map[string]any{"a": num(1)} }},
 		{"wrap-list", func(n int) (string, any) {
 			return rep("[", n) + "a" + rep("]", n) + rep("[0]", n), map[string]any{"a": num(1)}
@@ -480,6 +514,33 @@ func c09Families() []c09Family {
 				d = []any{d}
 			}
 			return "@ == @", d
+		}},
+		{"deep-object-equal", func(n int) (string, any) {
+			mk := func() any {
+				var d any = map[string]any{"a": num(1)}
+				for i := 0; i < n; i++ {
+					d = map[string]any{"a": d}
+				}
+				return d
+			}
+			return "x == y", map[string]any{"x": mk(), "y": mk()}
+		}},
+		{"deep-object-contains", func(n int) (string, any) {
+			mk := func() any {
+				var d any = map[string]any{"a": num(1), "b": []any{num(2)}}
+				for i := 0; i < n; i++ {
+					d = map[string]any{"a": d, "b": []any{num(i)}}
+				}
+				return d
+			}
+			return "[contains(l, x), l[0] != x, [x] == l]", map[string]any{"x": mk(), "l": []any{mk()}}
+		}},
+		{"deep-object-path-and-values", func(n int) (string, any) {
+			var d any = num(1)
+			for i := 0; i < n; i++ {
+				d = map[string]any{"a": d, "b": num(i)}
+			}
+			return "[a.a.a.b, length(to_string(@)), keys(@), values(a)[1]]", d
 		}},
 		{"deep-document-to_string", func(n int) (string, any) {
 			var d any = []any{num(1)}
